@@ -78,6 +78,7 @@ impl CfgModel {
             AdminOp::SetPercentCfg { digits, remove_zero, rounding } => { self.percent_cfg = (*digits, *remove_zero, *rounding); Some(AdminObs::Unit) }
             AdminOp::SetMoneyCfg { remove_zero, rounding } => { self.money_cfg = (*remove_zero, *rounding); Some(AdminObs::Unit) }
             AdminOp::SetDateRule { mdy } => { self.fmt.mdy = *mdy; Some(AdminObs::Unit) }
+            AdminOp::LoadTable { usd } => { self.rates.insert("USD".into(), *usd); Some(AdminObs::Unit) }
             AdminOp::AddRule { lang, rule } => {
                 if self.langs.contains(lang) {
                     self.rules.entry(lang.clone()).or_default().push(rule.clone());
@@ -317,6 +318,16 @@ impl World {
                 AdminOp::SetNumberCfg { digits, remove_zero, rounding } => { calc.set_number_configuration(*digits, *remove_zero, *rounding); AdminObs::Unit }
                 AdminOp::SetPercentCfg { digits, remove_zero, rounding } => { calc.set_percentage_configuration(*digits, *remove_zero, *rounding); AdminObs::Unit }
                 AdminOp::SetMoneyCfg { remove_zero, rounding } => { calc.set_money_configuration(*remove_zero, *rounding); AdminObs::Unit }
+                AdminOp::LoadTable { usd } => {
+                    let path = format!("{}/src/json/config.json", crate::cfgdata::repo_path());
+                    let txt = std::fs::read_to_string(&path).expect("config.json");
+                    let mut v: serde_json::Value = serde_json::from_str(&txt).expect("config.json parses");
+                    v["currency_rates"]["usd"] = serde_json::json!(*usd);
+                    *calc = SmartCalc::load_from_json(&v.to_string());
+                    calc.set_date_rule("en", vec!["{MONTH:month} {NUMBER:day}, {NUMBER:year}".to_string(), "{MONTH:month} {NUMBER:day} {NUMBER:year}".to_string(), "{NUMBER:day}/{NUMBER:month}/{NUMBER:year}".to_string(), "{NUMBER:day} {MONTH:month} {NUMBER:year}".to_string(), "{NUMBER:day} {MONTH:month}".to_string()]);
+                    calc.set_date_rule("tr", vec!["{NUMBER:day}/{NUMBER:month}/{NUMBER:year}".to_string(), "{NUMBER:day} {MONTH:month} {NUMBER:year}".to_string(), "{NUMBER:day} {MONTH:month}".to_string()]);
+                    AdminObs::Unit
+                }
                 AdminOp::SetDateRule { mdy } => {
                     let numeric = if *mdy { "{NUMBER:month}/{NUMBER:day}/{NUMBER:year}" } else { "{NUMBER:day}/{NUMBER:month}/{NUMBER:year}" };
                     calc.set_date_rule("en", vec!["{MONTH:month} {NUMBER:day}, {NUMBER:year}".to_string(), "{MONTH:month} {NUMBER:day} {NUMBER:year}".to_string(), numeric.to_string(), "{NUMBER:day} {MONTH:month} {NUMBER:year}".to_string(), "{NUMBER:day} {MONTH:month}".to_string()]);
